@@ -273,7 +273,8 @@ def diff(a, b, path="", tol=0.0, out=None, limit=12):
             for i, (x, y) in enumerate(zip(a, b)):
                 diff(x, y, path + "[%d]" % i, tol, out, limit)
     elif isinstance(a, (int, float)) and isinstance(b, (int, float)) and not isinstance(a, bool) and not isinstance(b, bool):
-        if abs(a - b) > tol * max(1.0, abs(a), abs(b)):
+        both_nan = (a != a) and (b != b)
+        if not both_nan and not (abs(a - b) <= tol * max(1.0, abs(a), abs(b))):      # a NaN on one side only is a difference
             out.append((path, a, b))
     elif a != b:
         out.append((path, a, b))
